@@ -50,15 +50,15 @@ func vpC13Probe(waf *corazawaf.WAF, name, val string) (int, int) {
 // construction must succeed and B must answer every probe as when it is built alone with an
 // empty cache.
 func VpC13Cache() {
-	s := []string{"abc", "a.c"}[vp.Choice("string", 2)]
+	s := []string{"abc", "a.c", "u{id}"}[vp.Choice("string", 3)]
 	roles := vpC13Roles(s)
 	ra := vp.Choice("roleA", len(roles))
 	rb := vp.Choice("roleB", len(roles))
 	closeA := vp.Choice("closeA", 2) == 1
-	names := []string{"abc", "k"}
-	vals := []string{"abc", "xyz", "v", "a-c"}
-	name := names[vp.Choice("name", 2)]
-	val := vals[vp.Choice("value", 4)]
+	names := []string{"abc", "k", "u42", "u{id}"}
+	vals := []string{"abc", "v", "u42", "xyz", "a-c", "u{id}"}
+	name := names[vp.Choice("name", vp.Param("NAMES", 3))]
+	val := vals[vp.Choice("value", vp.Param("VALS", 4))]
 
 	// B alone, empty cache
 	memoize.Reset()
